@@ -2,7 +2,6 @@ package keeper
 
 import (
 	"context"
-	"errors"
 	"math/big"
 
 	errorsmod "cosmossdk.io/errors"
@@ -84,8 +83,9 @@ func (k Keeper) DistributeReward(ctx context.Context) error {
 		totalPower += voteInfo.Validator.Power
 	}
 
-	if totalPower == 0 { // should never happened
-		return errors.New("invalid zero power")
+	// the first block of a chain has no last commit, e.g. a chain which starts from an exported state
+	if totalPower == 0 {
+		return nil
 	}
 
 	remainGas, remainReward := pool.Gas.BigInt(), pool.Goat.BigInt()
